@@ -211,3 +211,6 @@ def check_wiring(rep, rule, markers, label):
                   f'section `{name}` is put into the output only under {[k + " " + E.show(a, maxdepth=4) for k, a in bad][:3]}: for other inputs it is silently left out, although '
                   f'the rest of the module (helpers, constants, references) is generated as if it were there', ok_detail='reaches the output unconditionally (or is empty exactly when it has no content)')
     rep.floor(f'{label}: sections of the assembled output', n, 1)
+    # .. and all sections are generated from the one parsed module (resolved MIR)
+    from wrappers import check_one_module
+    check_one_module(rep, rule.rsplit('.', 1)[0] + '.one-module')
